@@ -1017,7 +1017,104 @@ func init() {
 	})
 }
 
+// ---- option propagation: SkipDefaultValues must mean the same wherever service `a` comes from.
+// The scenario is loaded with every default implicit and SkipDefaultValues set, once as given and once with origin
+// `main`; at the sites `transform.SetDefaultValues` fills, both projects must agree (the option is the caller's: an
+// included / extended / overriding file must not get defaults the main file is denied).
+var c11SDVSites = []string{"ports.protocol", "ports.mode", "secrets.target", "devices.count", "gpus.count", "build.context"}
+
+func c11RealSkipDefaults(raw json.RawMessage) any {
+	var sc c11Scenario
+	if err := json.Unmarshal(raw, &sc); err != nil {
+		panic(err)
+	}
+	load := func(origin string) (map[string]any, string) {
+		s2 := sc
+		s2.Origin = origin
+		files, cfs, _ := c11Build(s2, true)
+		out := core.LoadOutcome(core.LoadReq{Files: files, ConfigFiles: cfs, ProjectName: "proj", SkipDefaultValues: true})
+		b, _ := json.Marshal(out)
+		var o struct {
+			Ok  map[string]any `json:"ok"`
+			Err string         `json:"err"`
+		}
+		json.Unmarshal(b, &o)
+		return o.Ok, o.Err
+	}
+	ref, refErr := load("main")
+	got, gotErr := load(sc.Origin)
+	res := c11MetaOut{Exp: "ok", Imp: "ok"}
+	if ref == nil && got == nil {
+		res.Bad = "rejected at both origins: " + refErr
+		return res
+	}
+	if ref == nil || got == nil {
+		res.Failed = append(res.Failed, c11Check{"skip-default-values-outcome", sc.Origin, fmt.Sprintf("origin main: %q, origin %s: %q", refErr, sc.Origin, gotErr)})
+		return res
+	}
+	absent := map[string]bool{}
+	for _, u := range sc.Absent {
+		absent[u] = true
+	}
+	for _, id := range c11SDVSites {
+		if absent[c11UnitOf(id)] {
+			continue
+		}
+		var path []any
+		for _, s := range c11Sites {
+			if s.ID == id {
+				path = s.Path
+			}
+		}
+		x, okx := c11Get(ref, path)
+		y, oky := c11Get(got, path)
+		if okx != oky || !reflect.DeepEqual(x, y) {
+			res.Failed = append(res.Failed, c11Check{"skip-default-values", id + "@" + sc.Origin,
+				fmt.Sprintf("loaded with SkipDefaultValues, %s is %v (present=%v) when service a comes from the main file but %v (present=%v) when it comes from origin %s", id, x, okx, y, oky, sc.Origin)})
+		}
+	}
+	return res
+}
+
+func init() {
+	core.Register("c11.skipDefaults", &core.CheckDef{
+		Real:    c11RealSkipDefaults,
+		Timeout: 30 * time.Second,
+		Judge: func(args, real, _ json.RawMessage) *core.Verdict {
+			if v := core.CrashVerdict(real); v != nil {
+				return v
+			}
+			var out c11MetaOut
+			if err := json.Unmarshal(real, &out); err != nil {
+				return core.Disagree("malformed oracle outcome: " + string(real))
+			}
+			if out.Bad != "" {
+				return core.Disagree("oracle generator: " + out.Bad)
+			}
+			if len(out.Failed) > 0 {
+				f := out.Failed[0]
+				return core.Fail(f.Kind+":"+f.Key, f.What)
+			}
+			return nil
+		},
+	})
+}
+
 func c11Oracle(ctx *core.Ctx) {
+	// SkipDefaultValues at every origin, both layer placements, with / without the build section's siblings
+	for _, origin := range c11Origins {
+		for layer := 0; layer < 2; layer++ {
+			for _, list := range []bool{false, true} {
+				sc := c11NewScenario(origin)
+				for _, k := range c11LayerKeys {
+					sc.Layer[k] = layer
+				}
+				sc.ListDeps, sc.NullRes = list, list
+				ctx.Count("skip-default-values:" + origin)
+				ctx.Add("c11.skipDefaults", sc)
+			}
+		}
+	}
 	// exhaustive: every origin × every site × {D, O}, everything else implicit; both layer placements
 	for _, origin := range c11Origins {
 		for layer := 0; layer < 2; layer++ {
